@@ -202,3 +202,7 @@ DESIGNED = [
     [('e\\', 'f', None), ('w', 'd', None), ('w/a\\', 'f', None), ('w/a\\.', 'f', None), ('nl\nd', 'd', None), ('nl\nd/f', 'f', None),
      ('@(a', 'd', None), ('@(a/[b', 'f', None), ('x|y', 'f', None), ('plain', 'f', None)],
 ]
+# names that END in a line feed (`$` matches before it, `\Z` and fullmatch do not), beside their twins without it; kept out of
+# DESIGNED because `**` and the `.`/`..` guards have known findings on such names (C02-globstar-div-newline, C02-dotdir-guard-newline)
+NEWLINE_TREE = [('b', 'f', None), ('b\n', 'f', None), ('c\n', 'f', None), ('d', 'd', None), ('d/e', 'f', None), ('d\n', 'd', None), ('d\n/e', 'f', None),
+                ('d\n/e\n', 'f', None), ('\n', 'f', None), ('sub', 'd', None), ('sub/x\n', 'f', None), ('sub/x', 'f', None)]
